@@ -216,7 +216,8 @@ Definition run_tx (track h : N) (s : state) (t : tx) : state * outcome :=
       end
   end.
 
-(** a block: transactions at one height; the overlay is committed to the store at the end *)
+(** a block: transactions at one height; at the end the overlay is committed to the store
+    (OverlayDB.CommitTo + BatchCommit) and the next block starts with a fresh OverlayDB *)
 Record block := mkBlock { b_height : N; b_txs : list tx }.
 
 Fixpoint run_txs (track h : N) (s : state) (ts : list tx) : state * list outcome :=
@@ -227,7 +228,7 @@ Fixpoint run_txs (track h : N) (s : state) (ts : list tx) : state * list outcome
   end.
 
 Definition run_block (track : N) (s : state) (b : block) : state * list outcome :=
-  let '(s1, os) := run_txs track (b_height b) s (b_txs b) in (overlay_commit (cache_reset s1), os).
+  let '(s1, os) := run_txs track (b_height b) s (b_txs b) in (overlay_reset (overlay_commit (cache_reset s1)), os).
 
 Fixpoint run_chain (track : N) (s : state) (bs : list block) : state * list (list outcome) :=
   match bs with
@@ -235,3 +236,50 @@ Fixpoint run_chain (track : N) (s : state) (bs : list block) : state * list (lis
   | b :: r => let '(s1, o) := run_block track s b in
               let '(s2, os) := run_chain track s1 r in (s2, o :: os)
   end.
+
+(** * Well-formed inputs (Go type invariants: an address is [20]byte, slices hold bytes, a serialised
+    DeployCode is never empty) *)
+Definition code_ok (c : bytes) : bool := wf_bytes c && negb (is_empty c).
+
+Definition cop_wf (o : cop) : bool :=
+  match o with
+  | CCreate a code => is_addr a && code_ok code
+  | CMigrate cur new code => is_addr cur && is_addr new && code_ok code
+  | CDestroy cur => is_addr cur
+  | CPut cur k v => is_addr cur && wf_bytes k && wf_bytes v
+  | CDelete cur k => is_addr cur && wf_bytes k
+  | CAddDestroyed a => is_addr a
+  | CRemoveDestroyed a => is_addr a
+  end.
+
+Definition tx_wf (t : tx) : bool :=
+  match t with
+  | TDeploy a code => is_addr a && code_ok code
+  | TInvoke ops => forallb cop_wf ops
+  end.
+
+Definition block_wf (b : block) : bool := forallb tx_wf (b_txs b).
+
+(** the operator-only call that lifts the marker of [a] *)
+Definition cop_unsets (a : bytes) (o : cop) : bool :=
+  match o with CRemoveDestroyed b => bytes_eqb b a | _ => false end.
+Definition tx_unsets (a : bytes) (t : tx) : bool :=
+  match t with TInvoke ops => existsb (cop_unsets a) ops | _ => false end.
+Definition block_unsets (a : bytes) (b : block) : bool := existsb (tx_unsets a) (b_txs b).
+
+(** service calls that would deploy at [a] or change storage under [a] *)
+Definition cop_touches (a : bytes) (o : cop) : bool :=
+  match o with
+  | CPut c _ _ | CDelete c _ | CDestroy c => bytes_eqb c a
+  | CMigrate _ n _ => bytes_eqb n a
+  | _ => false
+  end.
+Definition tx_touches (a : bytes) (t : tx) : bool :=
+  match t with
+  | TDeploy b _ => bytes_eqb b a
+  | TInvoke ops => existsb (cop_touches a) ops
+  end.
+
+(** observations *)
+Definition contract_record (s : state) (a : bytes) : bytes := cache_get ST_CONTRACT s a.
+Definition storage_at (s : state) (a sfx : bytes) : bytes := cache_get ST_STORAGE s (a ++ sfx).
